@@ -214,10 +214,11 @@ Definition rev_node (vals : seq val) (store : seq (option T)) (st : rstate) (j :
   | NSet k =>
       match nth (VS zero) vals (arg 0) with
       | VBuf b =>
-          (* pb_setitem: xbar(rhs) += ybar[k] ; ybar[k] = 0 ; then restore the overwritten cell *)
+          (* pb_setitem (as repaired): tmp = ybar[k].copy() ; ybar[k] = 0 ; xbar(rhs) += tmp ; then restore the
+             overwritten cell.  (The order matters when rhs is a view of the cell being written, y[k] = y[k].) *)
           let cellbar := hget (rbheap st) b k in
-          let st1 := bar_add vals st (arg 1) cellbar in
-          let st2 := RState (rheap st1) (hset (rbheap st1) b k zero) (rbar st1) in
+          let st1 := RState (rheap st) (hset (rbheap st) b k zero) (rbar st) in
+          let st2 := bar_add vals st1 (arg 1) cellbar in
           match nth None store j with
           | Some old => RState (hset (rheap st2) b k old) (rbheap st2) (rbar st2)
           | None => st2
@@ -232,6 +233,29 @@ Fixpoint rev_loop (vals : seq val) (store : seq (option T)) (rt : seq node) (j :
   | nd :: rt', j'.+1 => rev_loop vals store rt' j' (rev_node vals store st j' nd)
   | _, _ => st
   end.
+
+(* the rule as it stood before the repair: xbar(rhs) += ybar[k] FIRST, then ybar[k] = 0 *)
+Definition rev_node_unrepaired (vals : seq val) (store : seq (option T)) (st : rstate) (j : nat) (nd : node) : rstate :=
+  match nop nd with
+  | NSet k =>
+      match nth (VS zero) vals (nth 0 (nargs nd) 0) with
+      | VBuf b =>
+          let cellbar := hget (rbheap st) b k in
+          let st1 := bar_add vals st (nth 0 (nargs nd) 1) cellbar in
+          let st2 := RState (rheap st1) (hset (rbheap st1) b k zero) (rbar st1) in
+          match nth None store j with
+          | Some old => RState (hset (rheap st2) b k old) (rbheap st2) (rbar st2)
+          | None => st2
+          end
+      | _ => st
+      end
+  | _ => rev_node vals store st j nd
+  end.
+Fixpoint rev_loop_unrepaired (vals : seq val) (store : seq (option T)) (rt : seq node) (j : nat) (st : rstate) : rstate :=
+  match rt, j with
+  | nd :: rt', j'.+1 => rev_loop_unrepaired vals store rt' j' (rev_node_unrepaired vals store st j' nd)
+  | _, _ => st
+  end.
 (* zero adjoints shaped like the values, then seed the dependent nodes *)
 Definition zero_like_heap (h : heap) : heap := [seq nseq (size row) zero | row <- h].
 Definition seed (vals : seq val) (st : rstate) (outs : seq nat) (ybars : seq T) : rstate :=
@@ -239,6 +263,9 @@ Definition seed (vals : seq val) (st : rstate) (outs : seq nat) (ybars : seq T) 
 Definition pullback (t : tape) (fs : fstate) (outs : seq nat) (ybars : seq T) : rstate :=
   let st0 := RState (fheap fs) (zero_like_heap (fheap fs)) (nseq (size t) zero) in
   rev_loop (fvals fs) (fstore fs) (rev t) (size t) (seed (fvals fs) st0 outs ybars).
+Definition pullback_unrepaired (t : tape) (fs : fstate) (outs : seq nat) (ybars : seq T) : rstate :=
+  let st0 := RState (fheap fs) (zero_like_heap (fheap fs)) (nseq (size t) zero) in
+  rev_loop_unrepaired (fvals fs) (fstore fs) (rev t) (size t) (seed (fvals fs) st0 outs ybars).
 (* the adjoint of the independent vector is row 0 of the adjoint heap *)
 Definition xbar_of (st : rstate) : seq T := nth [::] (rbheap st) 0.
 Definition gradient_like (t : tape) (outs : seq nat) (xs ybars : seq T) : seq T :=
